@@ -7,6 +7,7 @@ floor/ceil are computed correctly (value-level, see C03).
 from __future__ import annotations
 
 import ast
+import re
 
 from ..core import Rule, AnalysisError, C_LIB
 from .. import cfront, clib, cfg as _cfg, pyfront, pyutil
@@ -271,11 +272,40 @@ def r3_floor_ceil_pairing(repo=None):
     sn = [c for c in fn.calls(("snprintf",)) if c.args and c.args[0].path() == "basename"]
     if len(sn) != 1:
         raise AnalysisError("expected one snprintf into basename, found %d" % len(sn))
-    name_args = [a.path() for a in sn[0].args[3:]]
-    if len(name_args) != 2 or None in name_args:
-        raise AnalysisError("basename snprintf does not take two plain variables: %s" % sn[0].nsrc)
-    sec_v, ms_v = name_args
-    dm = (_divmod_of(fn, sec_v), _divmod_of(fn, ms_v))
+    locals_ = {d.name for d in fn.find("VarDecl")}
+
+    def canon(node, depth=0):
+        """text of an expression with once-defined locals replaced by their definition and the operands of + sorted"""
+        n = node.strip(casts=True)
+        if n.kind == "BinaryOperator" and n.opcode == "+":
+            return "+".join(sorted(canon(ch, depth) for ch in n.children))
+        pth = n.path()
+        if pth in locals_ and depth < 4:
+            defs = _single_def(fn, pth)
+            if len(defs) == 1:
+                e = defs[0][1].strip(casts=True)
+                if (e.kind == "BinaryOperator" and e.opcode == "+") or e.path() is not None:
+                    return canon(e, depth + 1)     # a sum (start + cadence) or a plain copy; anything else is a value of its own
+        return alias_path(fn, n) or re.sub(r"\s", "", n.nsrc)
+
+    def dmx(node, depth=0):
+        """(op, canonical operand) when the expression is X / 1000 or X % 1000, directly or through once-defined locals"""
+        if node is None:
+            return None
+        n = node.strip(casts=True)
+        if n.kind == "BinaryOperator" and n.opcode in ("/", "%") and n.children[1].intval() == 1000:
+            return n.opcode, canon(n.children[0])
+        pth = n.path()
+        if pth in locals_ and depth < 4:
+            defs = _single_def(fn, pth)
+            if len(defs) == 1:
+                return dmx(defs[0][1], depth + 1)
+        return None
+    nargs = sn[0].args[3:]
+    if len(nargs) != 2:
+        raise AnalysisError("basename snprintf does not take two name parts: %s" % sn[0].nsrc)
+    dm = (dmx(nargs[0]), dmx(nargs[1]))
+    sec_v, ms_v = (re.sub(r"\s", "", a_.nsrc) for a_ in nargs)
     if not dm[0] or not dm[1] or dm[0][0] != "/" or dm[1][0] != "%" or dm[0][1] != dm[1][1]:
         r.violation(LIB, F, "name parts %s, %s" % (sec_v, ms_v), "the second and millisecond parts of the file name are not "
                     "X/1000 and X%%1000 of one file-start millisecond value", line=sn[0].line)
@@ -290,34 +320,27 @@ def r3_floor_ceil_pairing(repo=None):
         return r
 
     def ceil_args(c):
-        a0 = c.args[0].path()
         a1 = c.args[1].strip(casts=True)
-        msv = None
+        msn = None
         if a1.kind == "BinaryOperator" and a1.opcode == "*" and 1000000000 in (a1.children[0].intval(), a1.children[1].intval()):
-            msv = a1.children[0].path() if a1.children[1].intval() == 1000000000 else a1.children[1].path()
+            msn = a1.children[0] if a1.children[1].intval() == 1000000000 else a1.children[1]
         out = c.args[4].strip(casts=True)
-        outv = out.children[0].path() if out.kind == "UnaryOperator" and out.opcode == "&" else None
+        outv = out.children[0].path() if out.kind == "UnaryOperator" and out.opcode == "&" else alias_path(fn, out)
         rate = (alias_path(fn, c.args[2]), alias_path(fn, c.args[3]))
-        return a0, msv, outv, rate
+        return dmx(c.args[0]), dmx(msn), outv, rate
 
+    next_ms = "+".join(sorted([file_ms, OBJ + "->file_cadence_millisecs"]))
     c_this = c_next = None
     for c in ceils:
-        a0, msv, outv, rate = ceil_args(c)
+        d0, d1, outv, rate = ceil_args(c)
         if rate != (OBJ + "->sample_rate_numerator", OBJ + "->sample_rate_denominator"):
             r.violation(LIB, F, c.nsrc[:80], "ceil helper called with something other than the channel's numerator, "
                         "denominator (in that order)", line=c.line)
             continue
-        d0, d1 = _divmod_of(fn, a0) if a0 else None, _divmod_of(fn, msv) if msv else None
-        if (a0, msv) == (sec_v, ms_v) or (d0 and d1 and d0 == ("/", file_ms) and d1 == ("%", file_ms)):
+        if d0 == ("/", file_ms) and d1 == ("%", file_ms):
             c_this = (c, outv)      # the same (second, millisecond) split of the file's start time that is printed into the name
-        else:
-            if d0 and d1 and d0[0] == "/" and d1[0] == "%" and d0[1] == d1[1]:
-                nxt = _single_def(fn, d0[1])
-                if len(nxt) == 1:
-                    e = nxt[0][1].strip(casts=True)
-                    if e.kind == "BinaryOperator" and e.opcode == "+" and {alias_path(fn, e.children[0]), alias_path(fn, e.children[1])} == {
-                            file_ms, OBJ + "->file_cadence_millisecs"}:
-                        c_next = (c, outv)
+        elif d0 == ("/", next_ms) and d1 == ("%", next_ms):
+            c_next = (c, outv)
     if c_this:
         r.ok("%s:%s %s" % (LIB, c_this[0].line, F), "first sample of this file = ceil(time printed in the name) [%s]" % c_this[1])
     else:
